@@ -81,6 +81,8 @@ def main(tier='quick'):
                     for mname, mb in mutate.mutators(b, rng):
                         if rep and not (mname.startswith('bitflip') or mname.startswith('random') or mname == 'cmd-garbage'):
                             continue
+                        if mname.startswith('ui-add-') and name not in ('echo', 'find') and tier == 'quick' and rng.random() > 0.2:
+                            continue          # the sub-item variants: all of them where the user echoes them, a sample elsewhere
                         n_mut = len(runs)
                         # every fourth ending is a connection reset, every fourth a peer that no longer receives
                         ending = 'RESET' if n_mut % 4 == 3 else ('DEAF' if n_mut % 4 == 1 else 'FIN')
